@@ -154,6 +154,23 @@ def build_file(L, wire, services, rng, force=None):
             body['raw_values'] = bytes(rng.randrange(256) for _ in range(rng.randrange(0, 40))).hex()
         model['chunks'].insert(at, {'name': 'PROP', 'compression': rng.choice(['none', 'lz4', 'zstd']), 'compressed_len': 0, 'len': 0, 'reserved': 0, 'body': body})
         tags.append('skip.' + kind)
+    # payloads that LOOK compressed but are stored uncompressed (compressed length 0: the magic test does not apply):
+    # a class id whose little-endian bytes are the Zstandard magic number, and an unknown chunk that carries a Zstandard
+    # frame of its own as opaque data
+    if rng.random() < 0.1 and insts:
+        inst = rng.choice(insts)
+        old_id, magic_id = inst['body']['class_id'], 0xFD2FB528
+        if all(c['body'].get('class_id') != magic_id for c in model['chunks'] if c['name'] in ('INST', 'PROP')):
+            for c in model['chunks']:
+                if c['name'] in ('INST', 'PROP') and c['body'].get('class_id') == old_id:
+                    c['body']['class_id'] = magic_id
+                    c['compression'] = 'none'
+            tags.append('class-id-is-zstd-magic')
+    if rng.random() < 0.1:
+        blob = refbin._compress('zstd', bytes(rng.randrange(256) for _ in range(rng.randrange(1, 60))))
+        model['chunks'].insert(rng.randrange(0, len(model['chunks']) - 1),
+                               {'name': 'ZsBl', 'compression': 'none', 'compressed_len': 0, 'len': 0, 'reserved': 0, 'body': {'raw': blob.hex()}})
+        tags.append('unknown-chunk-holds-zstd-frame')
     for ch in model['chunks']:
         if ch['compression'] == 'zstd' and rng.random() < 0.5:
             # a frame without the optional content-size field (streaming encoders)
